@@ -1148,6 +1148,18 @@ pub fn check_c09_concurrent(h: &Hist) -> POut {
                 }
             }
         }
+        // an approval is acted on: the verdict and the swap belong to one critical section, so a
+        // consultation of the caller that said yes is followed by the swap inside the same
+        // operation (a validator with state of its own must not be asked again and overruled)
+        for (prev, ok, seq) in &validations {
+            if *ok && !swaps.iter().any(|s| s.seq > *seq) {
+                out.violations.push(violk("C09", "R-approval-not-applied", *seq, v.key, "the validator approved the replacement but the resident value was not replaced", format!("{:?}: validator approved {:?} -> {:?} at seq {}, no swap followed inside the operation (consultations in this operation: {:?})", o.op, prev, v, seq, validations.iter().map(|x| x.1).collect::<Vec<_>>())));
+                break;
+            }
+        }
+        if validations.len() > 1 {
+            out.probe("validator_consulted_more_than_once_in_one_operation", 1);
+        }
         if validations.iter().any(|(_, ok, _)| !*ok) {
             out.probe("veto_under_concurrency", 1);
         }
